@@ -1,5 +1,5 @@
 SPECIFICATION TSpec
-CONSTANTS NLoc = 8 MaxSteps = 64 DevCache = FALSE Fns = {"self_sign", "sign_req", "derive", "new_cert"}
+CONSTANTS NLoc = 8 MaxSteps = 64 DevCache = FALSE DevShare = FALSE Fns = {"self_sign", "sign_req", "derive", "new_cert"}
 CONSTRAINT Mark
 POSTCONDITION Post
 CHECK_DEADLOCK FALSE
